@@ -121,7 +121,8 @@ void harness(void)
     {   /* the key object the C API must be handed */
         unsigned char tmp[256];
         size_t ksz = CLS <= 8 ? 80 : (CLS == 11 ? sizeof(ascon_masked_key_160_t) : sizeof(ascon_masked_key_128_t));
-        if (KEYING == 5) memcpy(tmp, alt, 80);
+        if (CLS >= 9 && KEYING == 0) memset(tmp, 0, sizeof(tmp));      /* masked default constructor: all-zero shares, a valid sharing of the zero key */
+        else if (KEYING == 5) memcpy(tmp, alt, 80);
         else kobj_from_key(tmp, ksz, effkey, KL, CLS <= 8 ? 0x11 : (CLS == 11 ? 0x33 : 0x22));
         memset(expk, 0, KOBJ); memcpy(expk, tmp, ksz < KOBJ ? ksz : KOBJ);
     }
